@@ -264,16 +264,17 @@ PROPS = {
         pkg="c13", level="exploration",
         technique="property-based testing (rapid) with structure-aware mutation of the honest next protocol message, hostile JSON/query/TLV corpora and raw bytes against every endpoint in every protocol state reached by an honest prefix; recover-based panic oracle plus an honest-handshake recovery oracle; native fuzzing of the same target",
         level_text=("An honest prefix driven by the reference controller puts a connection into one of 7 protocol states; 1..3 hostile requests (truncated / dropped / duplicated / reordered / over-long TLV items, encrypted data shorter than a tag, wrong tag, valid seal around garbage, hostile JSON incl. nesting depth 20000, odd query strings, /pairings bodies, odd methods, raw bytes) are delivered to the handler mux under recover. "
-                    "Oracle: no handler panics and every request gets a response; afterwards, with controller pairings wiped, an honest pair-setup + pair-verify succeeds on a new connection and - after at most one rejected start - on the same connection. The wire-level variant checks that each hostile request receives a complete HTTP response before the connection closes."),
+                    "Oracle: no handler panics and every request gets a response; afterwards, with controller pairings wiped, an honest pair-setup + pair-verify succeeds on a new connection and - after at most one rejected start - on the same connection. The wire-level variant checks that each hostile request receives a complete HTTP response before the connection closes and that net/http reports no recovered handler panic; a second wire-level machine resets the connection and reconnects at once from the same source port (the accessory keys its per-connection state by remote address) before the first request."),
         level_note="Trusted: refctl as honest peer; recover() as panic detector at handler level. Whether a hostile message is *accepted* is judged by C02/C03, not here. Handler level has no read deadline, so 'wedged' shows up as a failing recovery handshake rather than as a time-out.",
         rule=("rapid cases: state from {fresh, setup-after-M2, setup-after-M4, setup-completed, verify-after-M2, verified, verified+setup-after-M2} x 1..3 hostile requests from 10 generator families. "
               "Non-trivial: hostile request delivered in a non-initial protocol state. Distinct by (state, seed, requests)."),
         assumptions=["requests reach the handlers through net/http (which bounds header sizes and recovers nothing for us at handler level)"],
-        essential_classes=["state:setup-after-M4", "state:verify-after-M2", "state:verified", "kind:tlv:short-encrypted", "kind:tlv:wrong-tag", "kind:tlv:sealed-garbage", "kind:tlv:odd-ltpk", "kind:json", "kind:query", "endpoint:/pairings", "endpoint:/resource", "regress", "wire-state:verified", "wire-state:setup-after-M4"],
+        essential_classes=["state:setup-after-M4", "state:verify-after-M2", "state:verified", "kind:tlv:short-encrypted", "kind:tlv:wrong-tag", "kind:tlv:sealed-garbage", "kind:tlv:odd-ltpk", "kind:json", "kind:query", "endpoint:/pairings", "endpoint:/resource", "regress", "wire-state:verified", "wire-state:setup-after-M4", "wire-source-address-reuse", "kind:pairings-method-3-long-id"],
         jobs=[
             dict(test="TestC13Regress", kind="plain"),
             dict(test="TestC13Prop", kind="rapid", checks={Q: 150, T: 5000}, shards=12),
             dict(test="TestC13Wire", kind="rapid", checks={Q: 12, T: 400}, shards=4),
+            dict(test="TestC13Reuse", kind="rapid", checks={Q: 12, T: 150}, shards=4),
             dict(test="FuzzC13Handlers", kind="fuzz", tiers=[T], fuzztime={T: 120}),
         ],
     ),
